@@ -27,6 +27,7 @@ var (
 	flagUnq    = flag.Bool("unquote", false, "input lines are TLC CSVWrite lines: a TLA+ string literal holding JSON")
 	flagSelf   = flag.String("selftest", "", "run the lexer self-tests (html|md|json|all) and exit")
 	flagFinal  = flag.String("final", "", "append this op (for table 1) to every scenario: renderall")
+	flagSwap   = flag.String("swapfinal", "", "turn the final render op of every scenario into this op (faultsweep)")
 	flagBytes  = flag.Bool("bytes", false, "item strings are byte strings in Latin-1 transport (CSV family)")
 	flagMode   = flag.String("mode", "scenario", "scenario | registry | conc (special drivers)")
 )
@@ -99,6 +100,9 @@ func main() {
 		if *flagFinal != "" {
 			ops = append(ops, M{"op": *flagFinal, "t": json.Number("1")})
 		}
+		if *flagSwap != "" && len(ops) > 0 && ops[len(ops)-1]["op"] == "render" {
+			ops[len(ops)-1]["op"] = *flagSwap
+		}
 		var sub *substitution
 		if *flagSubst != 0 {
 			sub = newSubstitution(*flagSubst+int64(n), *flagPool)
@@ -111,9 +115,14 @@ func main() {
 	}
 	stats["scenarios"] = n
 	stats["ops"] = nops
+	stats["faultruns"] = faultRuns
+	stats["renders"] = renderCalls
 	b, _ := json.Marshal(stats)
 	fmt.Fprintf(os.Stderr, "vdrive: %s\n", b)
 }
+
+// counters reported in the driver's stats line (evidence)
+var faultRuns, renderCalls int
 
 func fatal(err error) {
 	fmt.Fprintf(os.Stderr, "vdrive: fatal: %v\n", err)
